@@ -7,8 +7,10 @@ import (
 	"fmt"
 
 	"github.com/jrhy/mast"
+	mastfile "github.com/jrhy/mast/persist/file"
 	masts3 "github.com/jrhy/mast/persist/s3"
 	"github.com/jrhy/mast/verifrt"
+	"github.com/jrhy/mast/verifrt/vos"
 	"verifharness/explore"
 	"verifharness/report"
 	"verifharness/sched"
@@ -19,19 +21,25 @@ import (
 // concurrent Load, all interleavings; afterwards the name must load with exactly
 // those bytes, and the concurrent Load may only have seen "not found" or the
 // complete bytes. In-memory store: its mutex is instrumented. S3: every client
-// call is a scheduling point. (The file backend's concurrency is not explored:
-// its steps are system calls; its crash behaviour is C17.)
+// call is a scheduling point. File backend: its `import "os"` is rewritten to an in-memory file
+// system whose every call is a scheduling point (a Write is two), provided the package uses nothing the
+// shim does not model; otherwise that backend is reported as not explored. Its crash behaviour is C17.
+// In every thread a Store that returned nil is followed at once by a Load of the same name.
 func c18Schedules(run *report.Run, acc *pairAcc) {
 	cfg := &world.Config{Name: "backends"}
 	payload := []byte{0, 1, 2, 0xff, 0xfe}
 	name := "qynm3BZ1XQBx66NJ69oiXRXk-RDLR0VJxH6Vy4XsxNY"
 	var total int64
-	for _, be := range []string{"in-memory", "s3"} {
+	fileVirtual := false
+	for _, be := range []string{"in-memory", "s3", "file"} {
 		be := be
 		setup := func() func() func(*verifrt.Result) sched.Outcome {
 			var p mast.Persist
 			if be == "in-memory" {
 				p = mast.NewInMemoryStore()
+			} else if be == "file" {
+				vos.Reset("/vfs", "/vfs/nodes")
+				p = mastfile.NewPersistForPath("/vfs/nodes")
 			} else {
 				f := newFakeS3()
 				f.gate = func(kind string) { verifrt.Env("s3:" + kind) }
@@ -41,24 +49,45 @@ func c18Schedules(run *report.Run, acc *pairAcc) {
 			var errs [2]error
 			var got []byte
 			var lerr error
+			var after [2]string
 			return func() func(*verifrt.Result) sched.Outcome {
 				var wg verifrt.WaitGroup
 				wg.Add(3)
 				for i := 0; i < 2; i++ {
 					i := i
-					verifrt.Go(func() { defer wg.Done(); errs[i] = p.Store(ctx, name, payload) })
+					verifrt.Go(func() {
+						defer wg.Done()
+						errs[i] = p.Store(ctx, name, payload)
+						if errs[i] == nil {
+							// "after a successful write, loading that name returns exactly those bytes"
+							if b, err := p.Load(ctx, name); err != nil || !bytes.Equal(b, payload) {
+								after[i] = fmt.Sprintf("%v / %d bytes", err, len(b))
+							}
+						}
+					})
 				}
 				verifrt.Go(func() { defer wg.Done(); got, lerr = p.Load(ctx, name) })
 				wg.Wait()
+				// still inside the controlled execution (the file backend's files exist only there)
+				final, ferr := p.Load(ctx, name)
+				virt := be == "file" && len(vos.Snapshot()) > 0
 				return func(*verifrt.Result) sched.Outcome {
 					out := sched.Outcome{Obs: fmt.Sprintf("%v %v load=%v/%d", errs[0], errs[1], lerr, len(got))}
+					if virt {
+						fileVirtual = true
+					}
+					for i := range after {
+						if after[i] != "" {
+							out.Findings = append(out.Findings, fmt.Sprintf("store-returned-nil-but-not-loadable\x00a Store returned nil while another Store of the same name and bytes was in flight, and a Load right after it did not return those bytes\x00%s", after[i]))
+						}
+					}
 					if errs[0] != nil || errs[1] != nil {
 						out.Findings = append(out.Findings, fmt.Sprintf("concurrent-store-failed\x00a concurrent Store of the same name and bytes failed on a healthy backend\x00%v %v", errs[0], errs[1]))
 					}
 					if lerr == nil && !bytes.Equal(got, payload) {
 						out.Findings = append(out.Findings, fmt.Sprintf("concurrent-load-saw-partial-data\x00a Load concurrent with the Stores returned neither an error nor the complete bytes\x00%d bytes", len(got)))
 					}
-					after, err := p.Load(ctx, name)
+					after, err := final, ferr
 					if err != nil || !bytes.Equal(after, payload) {
 						out.Findings = append(out.Findings, fmt.Sprintf("not-loadable-after-concurrent-stores\x00after two concurrent Stores of the same name and bytes the name is not loadable with those bytes\x00%v %d bytes", err, len(after)))
 					}
@@ -68,6 +97,12 @@ func c18Schedules(run *report.Run, acc *pairAcc) {
 		}
 		ex := &sched.Explorer{Bound: 3, MaxPoints: 1000, Budget: 200000}
 		ex.Explore(setup)
+		if be == "file" && !fileVirtual {
+			// the instrumenter left persist/file on the real package os (see its note in build/instr.log): nothing was explored
+			run.Parts = append(run.Parts, map[string]interface{}{"part": "B: concurrent stores (engine S)", "backend": be, "explored": false, "reason": "persist/file uses something the file-system shim does not model"})
+			run.Exhaustive = false
+			continue
+		}
 		total += ex.Schedules
 		if ex.Capped {
 			run.Exhaustive = false
